@@ -33,6 +33,7 @@ func OutDir() string {
 type Mismatch struct {
 	Signature string // class of the deviation: feature predicate(s) of the scenario + deviation pattern
 	Detail    string // human readable: expected vs observed
+	Key       string // optional: identifies the specific failing input (for known findings recorded per input)
 }
 
 // Driver is implemented by every property check.
@@ -52,6 +53,12 @@ type KnownFinding struct {
 	Commit      string   `json:"commit,omitempty"`
 	Description string   `json:"description"`
 	Exemplars   []string `json:"exemplars,omitempty"`
+	// Inputs / InputsFile (one key per line, path relative to /verif): when present the finding covers exactly
+	// these failing inputs (Mismatch.Key) of a deterministic scenario space; any other input failing with the
+	// same signature is still a violation.
+	Inputs     []string `json:"inputs,omitempty"`
+	InputsFile string   `json:"inputs_file,omitempty"`
+	inputSet   map[string]bool
 }
 
 type Ctx struct {
@@ -111,6 +118,28 @@ func NewCtx(d Driver, tier string) *Ctx {
 		}
 		for _, k := range kf.Findings {
 			if k.Property == c.ID && k.Status == "known" {
+				if len(k.Inputs) > 0 || k.InputsFile != "" {
+					k.inputSet = map[string]bool{}
+					for _, in := range k.Inputs {
+						k.inputSet[in] = true
+					}
+					if k.InputsFile != "" {
+						b, err := os.ReadFile(filepath.Join(VerifDir, k.InputsFile))
+						if err != nil {
+							c.Broken("known finding inputs file: " + err.Error())
+						}
+						for _, ln := range strings.Split(string(b), "\n") {
+							if ln = strings.TrimSpace(ln); ln != "" {
+								k.inputSet[ln] = true
+							}
+						}
+					}
+				}
+				if old, ok := c.known[k.Signature]; ok && old.inputSet != nil && k.inputSet != nil {
+					for in := range old.inputSet {
+						k.inputSet[in] = true
+					}
+				}
 				c.known[k.Signature] = k
 			}
 		}
@@ -232,9 +261,23 @@ func (c *Ctx) Report(scenario any, ms []Mismatch) bool {
 		c.Broken("cannot marshal scenario: " + err.Error())
 		return false
 	}
-	for _, m := range ms {
+	if f := os.Getenv("VERIF_DUMP_KEYS"); f != "" { // calibration aid: list every mismatch (never read back at run time)
 		c.mu.Lock()
-		if _, ok := c.known[m.Signature]; ok {
+		if fh, err := os.OpenFile(f, os.O_APPEND|os.O_CREATE|os.O_WRONLY, 0o644); err == nil {
+			for _, m := range ms {
+				fmt.Fprintf(fh, "%s\t%s\n", m.Signature, m.Key)
+			}
+			fh.Close()
+		}
+		c.mu.Unlock()
+	}
+	for _, m := range ms {
+		if m.Signature == "machinery" { // a driver-internal failure is never a verdict
+			c.Broken(m.Detail)
+			continue
+		}
+		c.mu.Lock()
+		if kf, ok := c.known[m.Signature]; ok && (kf.inputSet == nil || kf.inputSet[m.Key]) {
 			c.knownHits[m.Signature]++
 			if _, have := c.knownEx[m.Signature]; !have {
 				c.knownEx[m.Signature] = m.Detail
@@ -362,7 +405,7 @@ func RunReplay(d Driver, path string) int {
 		fmt.Printf("mismatch signature=%s %s\n", m.Signature, m.Detail)
 	}
 	for _, m := range ms {
-		if _, ok := c.known[m.Signature]; !ok {
+		if kf, ok := c.known[m.Signature]; !ok || (kf.inputSet != nil && !kf.inputSet[m.Key]) {
 			fmt.Printf("VIOLATION property=%s replay=%s\n", d.ID(), path)
 			return 1
 		}
